@@ -20,6 +20,7 @@ CONSTANTS
   BUG_AdapterRawClose = FALSE
   BUG_EarlyDeregister = FALSE
   BUG_CloseKeepsFd = FALSE
+  BUG_RepeatRearmsClosed = FALSE
   BUG_ForeignDeregister = FALSE
   BUG_WsResetLeak = FALSE
   BUG_SocketNonblockLeak = TRUE
